@@ -312,6 +312,13 @@ class Result:
             json.dump(ev, f, indent=1, ensure_ascii=False, default=str)
         for k in self.known:
             print("KNOWN-FINDING: property=%s %s" % (self.pid, k))
+        # replay files of earlier runs of this property describe another tree: remove them
+        import glob
+        for old in glob.glob(os.path.join(REPLAYS, self.pid + "-*.json")):
+            try:
+                os.remove(old)
+            except OSError:
+                pass
         if not self.violations:
             print("OK property=%s tier=%s evaluations=%s obligations=%s/%s wall=%.1fs" % (
                 self.pid, self.tier, self.coverage.get("evaluations"), self.coverage.get("discharged"),
